@@ -26,6 +26,27 @@ class Unlisted(Exception):
     pass
 
 
+HARNESS_BUG_TYPES = (KeyError, AssertionError, NameError, ImportError, NotImplementedError)
+
+
+def safe_check(mod, case):
+    """Run check_case; an exception escaping it that can come from the code under test (compiled kernels
+    raise without Python frames) is a violation of kind 'uncaught-exception', not a harness error."""
+    try:
+        return mod.check_case(case)
+    except Unlisted:
+        raise
+    except HARNESS_BUG_TYPES:
+        raise
+    except Exception as e:  # noqa
+        tb = traceback.extract_tb(e.__traceback__)
+        where = next((f"{os.path.basename(fr.filename)}:{fr.name}" for fr in reversed(tb)
+                      if "/pbt/" in fr.filename), "?")
+        from .common import Viol, result
+        return result([Viol(dict(kind="uncaught-exception", exc=type(e).__name__, at=where),
+                            f"{type(e).__name__}: {str(e)[:300]} (raised under {where})")], True, ["uncaught-exception"])
+
+
 class Recorder:
     """Per-shard bookkeeping shared by @given shards and state-machine shards."""
 
@@ -103,7 +124,7 @@ def run_shard(prop, modname, shard, tier, seed, scratch):
                 case = saved["case"]
                 rec.breadcrumb(case)
                 try:
-                    rec.record(case, mod.check_case(case))
+                    rec.record(case, safe_check(mod, case))
                 except Unlisted:
                     rec.last_fail["from_regress"] = os.path.relpath(path, VERIF_DIR)
                     return rec.out(violation=rec.last_fail, wall=time.time() - t0)
@@ -131,7 +152,7 @@ def run_shard(prop, modname, shard, tier, seed, scratch):
         @given(strat)
         def test(case):
             rec.breadcrumb(case)
-            rec.record(case, mod.check_case(case))
+            rec.record(case, safe_check(mod, case))
         try:
             test()
         except Unlisted:
@@ -204,7 +225,7 @@ def main(argv=None):
         mod = importlib.import_module(modname)
         with open(a.replay) as f:
             saved = json.load(f)
-        res = mod.check_case(saved["case"])
+        res = safe_check(mod, saved["case"])
         bad = 0
         for v in res["viol"]:
             e = match_known(prop, v["sig"])
